@@ -17,6 +17,8 @@ PROP = {
              # elements with drop glue (values as for u32, same model lines): a clone drops nothing, dropping a clone
              # runs len() destructors, over a whole history as many destructors as values made (direct oracles)
              {"tag": "c06dr", "bin": "c06", "args": ["--elem", "dr"]},
+             # zero-sized elements with a destructor (values as for c06zs): the same three oracles
+             {"tag": "c06dz", "bin": "c06", "args": ["--elem", "dz"]},
              # next / next_back / nth / nth_back / len / size_hint / as_slice run through the programs
              # REGENERATED from src/iter.rs (GenRun.v)
              {"tag": "c06gen", "bin": "c06", "num": 206},
@@ -26,7 +28,7 @@ PROP = {
              {"tag": "c06huge", "bin": "c06", "args": ["--huge"], "model": False}],
     "mismatch_is_failing": True,
     "regen_files": ["GenIter.v", "GenSigs.v", "GenPipe.v"],
-    "rule": "exhaustive: every reachable (front,back) position (directly and through clone) x every operation x every argument 0..=len+2 and usize::MAX for N<=5 (thorough: N<=8), followed by a fixed observation trailer; plus seeded histories over N in {0,1,2,3,5,8,16,97,1024}; the same with an observable-Clone element (c06cn) and with a zero-sized element (c06zs: all values 0, what shows is how many elements each operation visits). Direct oracles beside the model comparison: Debug under {:#?}, {:x?}, {:X?}, {:5?}, {:+?}, {:#06x?} must print what a one-field tuple struct holding the remaining slice prints; with the observable-Clone element Cn (clone counter + per-element use counter in a Cell) every clone() runs T::clone exactly len() times, each on the original's own element, and hands out only fresh clones. Run c06dr: the same cases with drop-counted elements - clone() runs no destructor, dropping a clone runs len() of them, and over every history as many destructors run as values were made. distinct = distinct CASE lines; non-trivial = the array is non-empty (first integer > 0); fold / rfold of the iterator itself (not of a clone) from every (front, back) position; Debug with up to 97 elements still to come",
+    "rule": "exhaustive: every reachable (front,back) position (directly and through clone) x every operation x every argument 0..=len+2 and usize::MAX for N<=5 (thorough: N<=8), followed by a fixed observation trailer; plus seeded histories over N in {0,1,2,3,5,8,16,97,1024}; the same with an observable-Clone element (c06cn) and with a zero-sized element (c06zs: all values 0, what shows is how many elements each operation visits). Direct oracles beside the model comparison: Debug under {:#?}, {:x?}, {:X?}, {:5?}, {:+?}, {:#06x?} must print what a one-field tuple struct holding the remaining slice prints; with the observable-Clone element Cn (clone counter + per-element use counter in a Cell) every clone() runs T::clone exactly len() times, each on the original's own element, and hands out only fresh clones. Run c06dr: the same cases with drop-counted elements - clone() runs no destructor, dropping a clone runs len() of them, and over every history as many destructors run as values were made. Run c06dz: the same with zero-sized drop-counted elements. distinct = distinct CASE lines; non-trivial = the array is non-empty (first integer > 0); fold / rfold of the iterator itself (not of a clone) from every (front, back) position; Debug with up to 97 elements still to come",
     "nontrivial": lambda case, obs: case.split()[0] != "0",
     "manifest": {
         "design_ref": "DESIGN.md section 7, C06",
